@@ -25,6 +25,8 @@ func main() {
 		os.Exit(runCheck(*repo, *prop, *tier))
 	case "func":
 		os.Exit(runFunc(*repo, fs.Args()))
+	case "frame":
+		os.Exit(runFrameCmd(*repo, fs.Args()))
 	case "dump":
 		w, err := loadWorld(*repo)
 		if err != nil {
